@@ -21,23 +21,21 @@ Lemma calib_creader :
                        | Some a, Some b => Nat.eqb (List.length (classes a)) (List.length (classes b)) | _, _ => false end) shipped_W = true.
 Proof. split; vm_compute; reflexivity. Qed.
 
-(* how much of the shipped project lies in the domain of the text-level theorem (free text such as HTML / CSS documentation is
-   inside it since the reader is quote-aware: K-C19-6).  With parse_top_q (no colon in element names) one element is outside:
-   the association OUDfaI6GAqAA8xe8 of TestClassDiagram, whose NAME holds a colon (Const: This should appear in constructor) --
-   the reader cuts the header  id:name:type  at every colon; parse_top_c covers row names with colons (top_pv_c states which
-   entries the header gives then): all 39 + 49 blobs are inside. *)
+(* how much of the shipped project lies in the domain of the text-level theorem: ALL of it (free text such as HTML / CSS
+   documentation since the reader is quote-aware: K-C19-6; element names with a colon -- the association
+   Const: This should appear in constructor -- since it cuts the header at the colons outside quotes: K-C19-7). *)
 Definition in_text_domain (n : wnode) : bool := wf_node n && nbq_node n && quote_ok (print_node n).
 Definition in_text_domain_c (n : wnode) : bool := wf_top n && nbq_node n && quote_ok (print_node n).
 Lemma calib_domain :
   map (fun W => (List.length (all_nodes W), List.length (filter in_text_domain_c (all_nodes W)), List.length (filter in_text_domain (all_nodes W)))) shipped_W
-  = [(39, 39, 39); (49, 49, 48)]
-  /\ flat_map (fun W => map (fun n => (node_id n, node_name n)) (filter (fun n => negb (in_text_domain n)) (all_nodes W))) shipped_W
+  = [(39, 39, 39); (49, 49, 49)]
+  /\ flat_map (fun W => map (fun n => (node_id n, node_name n)) (filter (fun n => negb (no_char ":" (name_text (node_name n)))) (all_nodes W))) shipped_W
      = [("OUDfaI6GAqAA8xe8", Some "Const: This should appear in constructor")].
 Proof. split; vm_compute; reflexivity. Qed.
 
-(* the former domain (no brace, no apostrophe anywhere) held 38 and 40 of them *)
+(* without free text (no brace, no apostrophe anywhere: the domain before the reader was made quote-aware) 38 and 41 of them *)
 Lemma calib_domain_before :
-  map (fun W => List.length (filter (fun n => wf_node n && nb_node n && no_char SQ (print_node n)) (all_nodes W))) shipped_W = [38; 40].
+  map (fun W => List.length (filter (fun n => wf_node n && nb_node n && no_char SQ (print_node n)) (all_nodes W))) shipped_W = [38; 41].
 Proof. vm_compute. reflexivity. Qed.
 
 (* on every shipped element in the domain the reader model returns the dictionary the theorem states (a computed instance) *)
